@@ -356,6 +356,7 @@ fn verif_harness_ext(toks: &[&str]) -> String {
                 preamble_err: g("pre", "2").parse().unwrap(),
                 squelch: kv(rest, "sqopen").map(|o| (o.parse().unwrap(), g("sqclose", "0").parse().unwrap())),
                 agc: kv(rest, "gmin").map(|o| (o.parse().unwrap(), g("gmax", "1000000").parse().unwrap())),
+                more: verif_harness::rxrun::more_options(&|k| kv(rest, k).map(|v| v.to_string())),
             };
             let p = Params {
                 rate: cfg.rate,
@@ -635,6 +636,7 @@ fn verif_harness_ext(toks: &[&str]) -> String {
                 preamble_err: g("pre", "2").parse().unwrap(),
                 squelch: kv(rest, "sqopen").map(|o| (o.parse().unwrap(), g("sqclose", "0").parse().unwrap())),
                 agc: kv(rest, "gmin").map(|o| (o.parse().unwrap(), g("gmax", "1000000").parse().unwrap())),
+                more: verif_harness::rxrun::more_options(&|k| kv(rest, k).map(|v| v.to_string())),
             };
             let p = Params {
                 rate: cfg.rate,
@@ -666,6 +668,7 @@ fn verif_harness_ext(toks: &[&str]) -> String {
                 preamble_err: g("pre", "2").parse().unwrap(),
                 squelch: kv(rest, "sqopen").map(|o| (o.parse().unwrap(), g("sqclose", "0").parse().unwrap())),
                 agc: kv(rest, "gmin").map(|o| (o.parse().unwrap(), g("gmax", "1000000").parse().unwrap())),
+                more: verif_harness::rxrun::more_options(&|k| kv(rest, k).map(|v| v.to_string())),
             };
             let p = Params {
                 rate: cfg.rate,
